@@ -641,12 +641,12 @@ def build_lsc(d: dict):
 def build_level(lv: dict, problem):
     e = lv["engine"]
     lsc = build_lsc(lv["lsc"])
-    if e in EA_CLASSES or e == "custom_ea":
+    if e in EA_CLASSES or e in ("custom_ea", "custom_ea2"):
         kw = {}
         for k in ("mutation_std", "p_mutation", "k_elites", "p_crossover", "mutation_std_step", "election_group_size"):
             if k in lv:
                 kw[k] = lv[k]
-        return (userdefs.TaggedEAConfig if e == "custom_ea" else EALevelConfig)(
+        return {"custom_ea": userdefs.TaggedEAConfig, "custom_ea2": userdefs.TaggedEAConfig2}.get(e, EALevelConfig)(
             ea_class=EA_CLASSES.get(e, _sea.SEA),
             pop_size=lv["pop"],
             problem=problem,
@@ -772,8 +772,13 @@ def build_config(desc: dict, ctx: Ctx) -> TreeConfig:
     sprout = build_sprout(desc["sprout"])
     options = dict(desc.get("options", {}))
     kw = {}
-    if any(lv["engine"] in ("custom", "custom_ea") for lv in desc["levels"]):
-        kw["config_class_to_deme_class"] = {userdefs.RandomSearchConfig: userdefs.RandomSearchDeme, userdefs.TaggedEAConfig: userdefs.TaggedEADeme}
+    if any(lv["engine"] in ("custom", "custom_ea", "custom_ea2") for lv in desc["levels"]):
+        # registration order on purpose: the base class of custom_ea2's config is registered before it
+        kw["config_class_to_deme_class"] = {
+            userdefs.RandomSearchConfig: userdefs.RandomSearchDeme,
+            userdefs.TaggedEAConfig: userdefs.TaggedEADeme,
+            userdefs.TaggedEAConfig2: userdefs.TaggedEADeme2,
+        }
     return TreeConfig(levels, gsc, sprout, options=options, **kw)
 
 
